@@ -41,7 +41,8 @@ SHRINK_LISTS = ["ops"]
 
 
 class CA(Component):
-    pass
+    """Declares __slots__ like the package's own classes: its instances have no __dict__."""
+    __slots__ = ()
 
 
 class CB(Component, __import__("abc").ABC):
